@@ -13,7 +13,8 @@ from harness import tlc, par, realworld
 from checks import clitools, mibcompile
 
 # ground-truth formulas of RealWorldTrace.tla that belong to each property
-TRUTH = {'C08': ('SourceTruth',), 'C10': ('SearcherTruth',), 'C19': ('BorrowerTruth',), 'C07': ('WriterTruth',), 'C09': ()}
+# (C07: a healthy module that fails to parse because of the module read before it is an error that was not contained)
+TRUTH = {'C08': ('SourceTruth',), 'C10': ('SearcherTruth',), 'C19': ('BorrowerTruth',), 'C07': ('WriterTruth', 'SourceTruth'), 'C09': ()}
 RW_TIMES = {'src': (101, 102), 'bor': 201, 'fresh': 1000, 'stale': 50}
 # tier -> [(label, Dom, Keep, cap)]
 SLICES = {
